@@ -1,7 +1,9 @@
 // Scenario steps on bitmaps, tilesets and PRT sprite metadata (C08, C09, C10, C11).
 #include "ops.hpp"
-static std::vector<unsigned char> bmp_bytes(const BitmapFile& b) { Stream::DynamicMemoryWriter w; b.WriteIndexed(w); return dyn_bytes(w); }
-static BitmapFile bmp_from(const std::vector<unsigned char>& b) { Stream::MemoryReader r(b.data(), b.size()); return BitmapFile::ReadIndexed(r); }
+static std::vector<unsigned char> bmp_bytes(const BitmapFile& b) { switch (via(3)) { case 1: { const std::string p = via_path("via_out.bmp"); b.WriteIndexed(p); return Scen::slurp(p); }
+	case 2: { const std::string p = via_path("via_out2.bmp"); b.WriteIndexed(Stream::FileWriter(p)); return Scen::slurp(p); } default: { Stream::DynamicMemoryWriter w; b.WriteIndexed(w); return dyn_bytes(w); } } }
+static BitmapFile bmp_from(const std::vector<unsigned char>& b) { switch (via(3)) { case 1: return BitmapFile::ReadIndexed(Stream::MemoryReader(b.data(), b.size()));
+	case 2: { const std::string p = via_path("via_in.bmp"); Scen::spit(p, b); return BitmapFile::ReadIndexed(p); } default: { Stream::MemoryReader r(b.data(), b.size()); return BitmapFile::ReadIndexed(r); } } }
 // ---- PRT sprite metadata (C10) -----------------------------------------------------------------------------------------
 static ArtFile art_build(const json& v) { ArtFile a; a.unknownAnimationCount = v["unknownCount"];
 	for (auto& p : v["palettes"]) { Palette8Bit pal; for (int i = 0; i < 256; ++i) pal[i] = Color{(uint8_t)p[i][0].get<int>(), (uint8_t)p[i][1].get<int>(), (uint8_t)p[i][2].get<int>(), (uint8_t)p[i][3].get<int>()}; a.palettes.push_back(pal); }
@@ -13,7 +15,9 @@ static ArtFile art_build(const json& v) { ArtFile a; a.unknownAnimationCount = v
 			for (auto& l : f["layers"]) { Animation::Frame::Layer L; auto lb = raw(l); memcpy(&L, lb.data(), 8); fr.layers.push_back(L); } A.frames.push_back(fr); }
 		for (auto& u : an["unk"]) { Animation::UnknownContainer U; auto ub = raw(u); memcpy(&U, ub.data(), 16); A.unknownContainer.push_back(U); } a.animations.push_back(A); }
 	return a; }
-static std::vector<unsigned char> art_bytes(const ArtFile& a) { Stream::DynamicMemoryWriter w; a.Write(w); return dyn_bytes(w); }
+static std::vector<unsigned char> art_bytes(const ArtFile& a) { if (via(2) == 1) { const std::string p = via_path("via_out.prt"); a.Write(p); return Scen::slurp(p); } Stream::DynamicMemoryWriter w; a.Write(w); return dyn_bytes(w); }
+static ArtFile art_from(const std::vector<unsigned char>& b) { switch (via(3)) { case 1: return ArtFile::Read(Stream::MemoryReader(b.data(), b.size()));
+	case 2: { const std::string p = via_path("via_in.prt"); Scen::spit(p, b); return ArtFile::Read(p); } default: { Stream::MemoryReader r(b.data(), b.size()); return ArtFile::Read(r); } } }
 bool ops_image(Ctx& c, const json& s, int idx, bool& handled) {
 	OPS_PROLOGUE
 	if (op == "bmp_roundtrip") { auto in = raw(s["input"]), canon = raw(s["canon"]), flip = raw(s["flip"]); BitmapFile b; if (throws([&] { b = bmp_from(in); })) { Proto::mismatch(site, "refused-should-accept", where("")); return false; }
@@ -34,15 +38,21 @@ bool ops_image(Ctx& c, const json& s, int idx, bool& handled) {
 		auto out = bmp_bytes(b), want = raw(s["image"]); if (out != want) { Proto::mismatch(site, "bytes", where(Scen::hexdiff(out, want))); return false; } BitmapFile b2; if (throws([&] { b2 = bmp_from(out); }) || !(b2 == b)) { Proto::mismatch(site, "round-trip-not-equal", where("")); return false; } return true; }
 	if (op == "tileset") { auto asBmp = raw(s["bmp"]), custom = raw(s["custom"]), top = raw(s["top"]);
 		for (int which = 0; which < 2; ++which) { const auto& src = which ? custom : asBmp; const std::string sub = which ? "/from-custom" : "/from-bmp"; BitmapFile b; Stream::MemoryReader r(src.data(), src.size());
-			if (throws([&] { b = Tileset::ReadTileset(r); })) { Proto::mismatch(site + sub, "refused-should-accept", where("")); return false; }
+			if (throws([&] { b = via(2) ? Tileset::ReadTileset(Stream::MemoryReader(src.data(), src.size())) : Tileset::ReadTileset(r); })) { Proto::mismatch(site + sub, "refused-should-accept", where("")); return false; }
+			if (which == 1) { BitmapFile b3; if (throws([&] { b3 = via(2) ? Tileset::ReadCustomTileset(Stream::MemoryReader(src.data(), src.size())) : [&] { Stream::MemoryReader r3(src.data(), src.size()); return Tileset::ReadCustomTileset(r3); }(); }) || !(b3 == b)) { Proto::mismatch(site + sub, "entry-points-differ", where("ReadCustomTileset against the detecting loader")); return false; } }
 			if (which == 1 && b.imageHeader.height > 0) { Proto::mismatch(site + sub, "not-top-down", where("")); return false; }
 			BitmapFile t = b; if (t.GetScanLineOrientation() == ScanLineOrientation::BottomUp) t.InvertScanLines();       // compare as pictures
 			if (bmp_bytes(t) != top) { Proto::mismatch(site + sub, "picture", where(Scen::hexdiff(bmp_bytes(t), top))); return false; }
-			Stream::DynamicMemoryWriter w; if (throws([&] { Tileset::WriteCustomTileset(w, b); })) { Proto::mismatch(site + sub, "save-refused", where("")); return false; } if (dyn_bytes(w) != custom) { Proto::mismatch(site + sub, "custom-bytes", where(Scen::hexdiff(dyn_bytes(w), custom))); return false; } }
+			Stream::DynamicMemoryWriter w; if (throws([&] { Tileset::WriteCustomTileset(w, b); })) { Proto::mismatch(site + sub, "save-refused", where("")); return false; }
+			{ const std::string p = via_path("via_out.tset"); if (throws([&] { Tileset::WriteCustomTileset(Stream::FileWriter(p), b); }) || Scen::slurp(p) != dyn_bytes(w)) { Proto::mismatch(site + sub, "entry-points-differ", where("WriteCustomTileset to a temporary file writer")); return false; } }
+			if (dyn_bytes(w) != custom) { Proto::mismatch(site + sub, "custom-bytes", where(Scen::hexdiff(dyn_bytes(w), custom))); return false; } }
 		return true; }
 	if (op == "tileset_bad") { auto src = raw(s["bmp"]); Stream::MemoryReader r(src.data(), src.size()); if (!throws([&] { Tileset::ReadTileset(r); })) { Proto::mismatch(site + "/load", "accepted-should-refuse", where("")); return false; }
 		BitmapFile b = bmp_from(src); Stream::DynamicMemoryWriter w; if (!throws([&] { Tileset::WriteCustomTileset(w, b); })) { Proto::mismatch(site + "/save", "accepted-should-refuse", where("")); return false; } return true; }
-	if (op == "ts_detect") { auto src = raw(s["bytes"]); Stream::MemoryReader r(src.data(), src.size()); r.Seek(s["pos"].get<uint64_t>()); bool got = Tileset::PeekIsCustomTileset(r); if (got != s["expect"].get<bool>()) { Proto::mismatch(site, "value", where("")); return false; } if (r.Position() != s["pos"].get<uint64_t>()) { Proto::mismatch(site, "moved-the-stream", where("")); return false; } return true; }
+	if (op == "ts_detect") { auto src = raw(s["bytes"]); Stream::MemoryReader r(src.data(), src.size()); r.Seek(s["pos"].get<uint64_t>()); bool got = Tileset::PeekIsCustomTileset(r); if (got != s["expect"].get<bool>()) { Proto::mismatch(site, "value", where("")); return false; }
+		{ Stream::MemoryReader r2(src.data(), src.size()); r2.Seek(s["pos"].get<uint64_t>()); if (Tileset::PeekIsCustomTileset(std::move(r2)) != got) { Proto::mismatch(site, "entry-points-differ", where("")); return false; } }
+		if (s.contains("isBitmap")) { bool bm = BitmapFile::PeekIsBitmap(r); if (bm != s["isBitmap"].get<bool>()) { Proto::mismatch(site + "/bitmap", "value", where("")); return false; }
+			Stream::MemoryReader r2(src.data(), src.size()); r2.Seek(s["pos"].get<uint64_t>()); if (BitmapFile::PeekIsBitmap(std::move(r2)) != bm) { Proto::mismatch(site + "/bitmap", "entry-points-differ", where("")); return false; } } if (r.Position() != s["pos"].get<uint64_t>()) { Proto::mismatch(site, "moved-the-stream", where("")); return false; } return true; }
 	if (op == "prt_roundtrip") { auto in = raw(s["input"]), canon = raw(s["canon"]); ArtFile a; Stream::MemoryReader r(in.data(), in.size()); if (throws([&] { a = ArtFile::Read(r); })) { Proto::mismatch(site, "refused-should-accept", where("")); return false; }
 		if (r.Position() != in.size()) { Proto::mismatch(site, "consumed", where("consumed " + std::to_string(r.Position()) + " of " + std::to_string(in.size()))); return false; }
 		// the parsed structure equals the logical value (compared through the specification's own encoding of it)
@@ -51,8 +61,8 @@ bool ops_image(Ctx& c, const json& s, int idx, bool& handled) {
 		for (std::size_t p = 0; p < a.palettes.size(); ++p) for (int i = 0; i < 256; ++i) { const json& c = v["palettes"][p][i]; const Color& g = a.palettes[p][i]; if (g.red != c[0].get<int>() || g.green != c[1].get<int>() || g.blue != c[2].get<int>() || g.alpha != c[3].get<int>()) { Proto::mismatch(site, "palette-channel-order", where("palette " + std::to_string(p) + " entry " + std::to_string(i))); return false; } }
 		auto before = art_bytes(a); if (before != canon) { Proto::mismatch(site, "bytes", where(Scen::hexdiff(before, canon))); return false; }
 		auto again = art_bytes(a); if (again != before) { Proto::mismatch(site, "write-altered-the-object", where("")); return false; }
-		ArtFile a2; Stream::MemoryReader r2(before.data(), before.size()); if (throws([&] { a2 = ArtFile::Read(r2); }) || art_bytes(a2) != before) { Proto::mismatch(site, "not-byte-stable", where("")); return false; } return true; }
-	if (op == "prt_read") { auto in = raw(s["input"]); Stream::MemoryReader r(in.data(), in.size()); bool refused = throws([&] { ArtFile::Read(r); }); bool want = s["expect"] == "refuse";
+		ArtFile a2; if (throws([&] { a2 = art_from(before); }) || art_bytes(a2) != before) { Proto::mismatch(site, "not-byte-stable", where("")); return false; } return true; }
+	if (op == "prt_read") { auto in = raw(s["input"]); bool refused = throws([&] { art_from(in); }); bool want = s["expect"] == "refuse";
 		if (refused != want) { Proto::mismatch(site, refused ? "refused-should-accept" : "accepted-should-refuse", where("")); return false; } return true; }
 	if (op == "prt_write") { ArtFile a = art_build(s["value"]); std::vector<unsigned char> out; bool refused = throws([&] { out = art_bytes(a); }); bool want = s["expect"] == "refuse";
 		if (refused != want) { Proto::mismatch(site, refused ? "refused-should-accept" : "accepted-should-refuse", where("")); return false; } if (!refused && out != raw(s["canon"])) { Proto::mismatch(site, "bytes", where("")); return false; } return true; }
